@@ -105,6 +105,16 @@ def build(assign):
     return argv, ("\n".join(cfg) + "\n") if cfg else None, "cli " + " ".join(words)
 
 
+def _effective(line, name):
+    """command line over config file"""
+    vals = {}
+    for w in line.split(" ")[1:]:
+        k, src, hv = w.split(":")
+        if k == name:
+            vals[src] = "" if hv == "-" else bytes.fromhex(hv).decode()
+    return vals.get("c", vals.get("f"))
+
+
 def cli_scope(res, pid, rng, tier):
     sess, fails = Sess(), []
     cases = []
@@ -159,6 +169,8 @@ def cli_scope(res, pid, rng, tier):
                 bad = "host bits outside 0-32 or different for the two families"
             elif not has("hostbits") and f["b4"] != "8":
                 bad = "default of 8 host bits not applied"
+            elif has("hostbits") and f["b4"] != str(int(_effective(line, "hostbits"))):
+                bad = "the number of preserved host bits given by the user is not the one applied"
             elif not has("prefixes") and f["prefixes"] != show_opt_l("0.0.0.0/1,128.0.0.0/2,192.0.0.0/3,224.0.0.0/4,10.0.0.0/8,172.16.0.0/12,192.168.0.0/16".split(",")):
                 bad = "default preserved prefixes (classes + private) not applied"
             elif has("private") and not f["nets"].endswith(show_opt_l(["10.0.0.0/8", "172.16.0.0/12", "192.168.0.0/16"])[1:]):
